@@ -63,8 +63,22 @@ fn html_unescape(s: &str) -> String {
 }
 
 pub fn run(n: usize, rng: &mut Rng, rep: &mut Report) {
-    let md = Cfg::stock().build();
-    for _ in 0..n {
+    let md_stock = Cfg::stock().build();
+    // the same plugins reached through a HISTORY: a rule with a non-punctuation marker first, one parse, the code rules afterwards
+    let md_hist = {
+        use markdown_it::plugins::cmark::{block, inline};
+        let mut m = markdown_it::MarkdownIt::new();
+        m.inline.add_rule::<crate::custom::PairE>();
+        block::paragraph::add(&mut m); inline::newline::add(&mut m);
+        let _ = crate::util::guarded(|| m.parse("warm éé up `x` *y*\n\n    z").render());
+        inline::escape::add(&mut m); inline::backticks::add(&mut m); inline::emphasis::add(&mut m); inline::link::add(&mut m);
+        inline::image::add(&mut m); inline::autolink::add(&mut m); inline::entity::add(&mut m);
+        block::code::add(&mut m); block::fence::add(&mut m); block::blockquote::add(&mut m); block::hr::add(&mut m); block::list::add(&mut m);
+        block::reference::add(&mut m); block::heading::add(&mut m); block::lheading::add(&mut m);
+        m
+    };
+    for case_no in 0..n {
+        let md = if case_no % 6 == 5 { &md_hist } else { &md_stock };
         let depth = rng.below(4);
         let which = rng.below(3);
         let (doc, want, what): (String, String, &str) = match which {
